@@ -1870,7 +1870,7 @@ func hashProperties() []*propertySpec {
 			Explanation: "Static analysis of the goroutine topology of the Hash implementation (channels, senders, receivers recovered by alias propagation through closures and parameters): HS1 proves that the only arrival-ordered slice that flows into the returned digest is sorted (dominance of the sort call over every consumer) with a comparator that orders whole elements; HS2 proves by origin tracing that every item is sha256 of the entire file opened on the job path plus that unmodified path, and that both reach the accumulated element; HS3 proves by path enumeration that each job yields exactly one item unless it is a directory; HS4 proves by interval evaluation that at least one worker exists for a non-empty list.",
 			NotCovered:  []string{"injectivity of the hash||path framing and collision resistance of SHA-256", "that min(NumCPU, len) is the best bound", "duplicate paths in the list (value-level)"},
 			Assumptions: trusted,
-			Rules:       []func(*Ctx) *rule{ruleHS1, ruleHS2, ruleHS3, ruleHS4("HS4")}},
+			Rules:       []func(*Ctx) *rule{ruleHS1, ruleHS2, ruleHS3, ruleHS4("HS4"), ruleHS5}},
 		{ID: "C18", Title: "Hashing any path list returns cleanly: no crash, deadlock, race or leak",
 			Explanation: "Schedules and fault sequences are covered by shape conditions on the fixed producer/jobs/workers/results/collector topology recovered from the SSA form: CC1 (no dereference of a value whose paired error is non-nil or discarded), CC2 (every worker error is sent on all paths), CC3 (nil-error return guarded by the received errors), CC4 (Done deferred at entry, Add(1) before each go in the same iteration), CC5 (single close of jobs by the sole producer after the last send on every path; close of results after Wait), CC6 (receive loops leave only on channel-closed), CC7 (no shared writable memory), CC8 (>= 1 worker). CC4-CC8 together with HS3 are sufficient for deadlock-, leak- and race-freedom of this topology under any schedule: every worker terminates iff jobs is closed and drained; jobs is closed after finitely many sends, each of which is matched because >= 1 worker loops until closed; each worker's sends are matched because the collector drains until closed; results is closed exactly when all workers are done. A different topology makes the check undecided, not green.",
 			NotCovered:  []string{"panics inside the standard library", "liveness if the file system blocks a read forever"},
